@@ -10,11 +10,55 @@ import (
 // fns builds a construct pattern matching obligations located in the named
 // functions (or closures nested in them).
 func fns(names ...string) string {
+	pat := fnsPattern(names)
+	fnsRoots[pat] = names
+	return pat
+}
+
+func fnsPattern(names []string) string {
 	var q []string
 	for _, n := range names {
 		q = append(q, regexp.QuoteMeta(n))
 	}
 	return `^(` + strings.Join(q, "|") + `)(\$\d+)*/`
+}
+
+// fnsRoots remembers which function names a fns() pattern was built from, so
+// that Only can widen the pattern, at run time, to the helpers those functions
+// are split into on the tree being analysed (a property keeps reporting an
+// obligation when the code it sits in is moved into an extracted helper).
+var fnsRoots = map[string][]string{}
+
+// expandFns returns the pattern for the named functions plus every repository
+// function reachable from them through static calls and closures.
+func expandFns(P *core.Program, pat string) string {
+	roots, ok := fnsRoots[pat]
+	if !ok {
+		return pat
+	}
+	seen := map[string]bool{}
+	var names []string
+	add := func(n string) {
+		if !seen[n] {
+			seen[n] = true
+			names = append(names, n)
+		}
+	}
+	for _, r := range roots {
+		add(r)
+		for _, pkg := range []string{core.PkgBttest, core.PkgGcsemu, core.PkgGcsutil} {
+			fn := P.Func(pkg, r)
+			if fn == nil || fn.Blocks == nil {
+				continue
+			}
+			for _, f := range P.Scope(fn, nil) {
+				if f.Synthetic == "" {
+					add(core.FuncName(core.Root(f)))
+				}
+			}
+		}
+	}
+	return fnsPattern(names)
 }
 
 const (
